@@ -180,6 +180,23 @@ func c12Run(sc *C12Scenario, withUntrusted bool, flags map[string]bool) (out *c1
 					}
 				}
 			}
+		case "badtx":
+			// a transaction that matches the subscriptions and spends outputs nobody knows (the output
+			// fetcher answers with an error): anybody can make one up
+			bad := wire.NewMsgTx(1)
+			var prev bitcoin.Hash32
+			prev[0], prev[1], prev[31] = byte(ev.Tx), 0xbd, 0xbd
+			bad.AddTxIn(wire.NewTxIn(wire.NewOutPoint(&prev, 0), []byte{0x51}))
+			bad.AddTxOut(wire.NewTxOut(1000, p2pkhLike(subUniverse[ev.Tx%3])))
+			u.deliver(sn, bad)
+			for sn.txStep() {
+			}
+			if wasVerified {
+				flags["untrusted-unfetchable-tx"] = true
+			}
+			if sn.txThreadDead != "" {
+				out.v = &nodeViolation{"C12/node-stopped-by-untrusted-tx", fmt.Sprintf("a transaction from an untrusted connection (verified: %v) that spends unknown outputs made transaction processing fail (%s): the node stops itself and no longer follows the trusted peer", wasVerified, sn.txThreadDead)}
+			}
 		case "block":
 			b, ok := tree.ByName[ev.Block]
 			if !ok || len(b.Txs) == 0 {
@@ -338,7 +355,7 @@ func genC12(t *rapid.T) *C12Scenario {
 	nu := rapid.IntRange(1, 25).Draw(t, "nuev")
 	for i := 0; i < nu; i++ {
 		ev := C12UEvent{After: rapid.IntRange(-1, len(plan.Events)-1).Draw(t, "after"), Conn: rapid.IntRange(0, 2).Draw(t, "conn"),
-			Op: rapid.SampledFrom([]string{"version", "verify", "verify", "headers", "headers", "inv", "tx", "tx", "exttx", "block", "block", "block", "addr", "reject", "check"}).Draw(t, "uop")}
+			Op: rapid.SampledFrom([]string{"version", "verify", "verify", "headers", "headers", "inv", "tx", "tx", "exttx", "badtx", "block", "block", "block", "addr", "reject", "check"}).Draw(t, "uop")}
 		switch ev.Op {
 		case "verify":
 			// an honest verification needs the node to know recent headers: place it late
@@ -353,7 +370,7 @@ func genC12(t *rapid.T) *C12Scenario {
 					ev.Names = append(ev.Names, rapid.SampledFrom(names).Draw(t, "hn"))
 				}
 			}
-		case "inv", "tx", "exttx":
+		case "inv", "tx", "exttx", "badtx":
 			ev.Tx = rapid.IntRange(0, len(sc.Txs)-1).Draw(t, "tx")
 		case "block":
 			ev.Block = rapid.SampledFrom(names).Draw(t, "block")
@@ -366,10 +383,10 @@ func genC12(t *rapid.T) *C12Scenario {
 }
 
 func c12Nontrivial(f map[string]bool) bool {
-	return f["untrusted-tx-reached-node"] || f["untrusted-block-for-requested"] || f["untrusted-bad-body-for-requested-block"]
+	return f["untrusted-tx-reached-node"] || f["untrusted-block-for-requested"] || f["untrusted-bad-body-for-requested-block"] || f["untrusted-unfetchable-tx"]
 }
 
-const c12Rule = "non-interference pairs in step mode: a well-behaved trusted history (C01 generator without restarts) run alone and interleaved with up to 3 untrusted connections (real UntrustedNode objects without sockets) sending version, verification headers of any shape (valid, unknown first, too-low first, unlinked, unknown headers), inv, tx (plain and extmsg-wrapped; relevant, conflicting, irrelevant), blocks (any tree block, both forms, including a body that differs under the header of an outstanding trusted request), addr, reject and activity checks; oracle: identical HandleHeaders sequence, final chain and set of txids reported with a proof; B converges; verification only by linked recent known headers; unverified connections cause no getdata and no delivery; nothing untrusted peers introduced is marked trusted or reported safe; non-trivial = untrusted messages reached shared state (post-verification tx/inv, or a block for an outstanding request); distinct by scenario hash"
+const c12Rule = "non-interference pairs in step mode: a well-behaved trusted history (C01 generator without restarts) run alone and interleaved with up to 3 untrusted connections (real UntrustedNode objects without sockets) sending version, verification headers of any shape (valid, unknown first, too-low first, unlinked, unknown headers), inv, tx (plain and extmsg-wrapped; relevant, conflicting, irrelevant, or relevant but spending outputs nobody can supply), blocks (any tree block, both forms, including a body that differs under the header of an outstanding trusted request), addr, reject and activity checks; oracle: identical HandleHeaders sequence, final chain and set of txids reported with a proof; B converges; verification only by linked recent known headers; unverified connections cause no getdata and no delivery; nothing untrusted peers introduced is marked trusted or reported safe; non-trivial = untrusted messages reached shared state (post-verification tx/inv, or a block for an outstanding request); distinct by scenario hash"
 
 func TestC12NonInterference(t *testing.T) {
 	rep := verifkit.NewReport("C12", "TestC12NonInterference", c12Rule)
